@@ -93,6 +93,16 @@ func compilePolicyAfter(p *spec.Policy, prev string) (c *compiled, err error, pa
 	if err != nil {
 		return nil, err, nil
 	}
+	if prev == "then-other" {
+		// the program is kept by the caller while the library goes on to compile other policies (a smaller and a larger
+		// one): what was returned belongs to the caller and must not change under its hands
+		small := spec.Policy{Arch: p.Arch, Default: oracle.ActionList()[(len(insts)+1)%7], Groups: []spec.Group{{Action: oracle.ActionList()[len(insts)%7], Names: gen.Subset(gen.Universe(p.Arch), uint64(len(insts)), 3)}}}
+		small.ToSeccomp().Assemble()
+		large := small
+		large.Groups = []spec.Group{{Action: small.Groups[0].Action, Names: gen.Subset(gen.Universe(p.Arch), uint64(len(insts))+1, len(insts)+40)}}
+		large.ToSeccomp().Assemble()
+		small.ToSeccomp().Assemble()
+	}
 	c = &compiled{insts: insts}
 	return c, nil, nil
 }
